@@ -40,6 +40,7 @@ class Unit(object):
         self.samples = []
         self.notes = []
         self.preconditions = []
+        self.truncated = 0
 
     @property
     def thorough(self):
@@ -53,6 +54,7 @@ class Unit(object):
             self.functions |= p.ctx.inlined
             self.models_used |= p.ctx.assumed_models
             self.solver_calls += p.ctx.solver_calls
+            self.truncated += p.ctx.truncated
         self.paths += len(out)
         if not out:
             raise Undecided("no feasible path (contradictory precondition?) in unit %s" % self.name)
@@ -167,7 +169,7 @@ def _run_unit(arg):
         "results": [r.as_dict() for r in U.results], "functions": sorted(U.functions),
         "models_used": sorted(U.models_used), "paths": U.paths, "path_validations": U.path_validations,
         "solver_calls": U.solver_calls, "bounded": U.bounded, "samples": U.samples, "notes": U.notes,
-        "preconditions": U.preconditions,
+        "preconditions": U.preconditions, "truncated": U.truncated,
     }
 
 
@@ -238,6 +240,9 @@ def finish(prop, mod, tier, seed, outs, wall):
         for r in o["results"]:
             r["unit"] = o["unit"]
             results.append(r)
+    for o in outs:
+        if o.get("truncated"):
+            undecided.append("unit %s: %d path(s) explored only up to a refinement bound (not a proof for this tree)" % (o["unit"], o["truncated"]))
     vcs = [r for r in results if r["kind"] in ("vc", "lemma")]
     aux = [r for r in results if r["kind"] in ("cover", "canary", "validation")]
     bnd = [r for r in results if r["kind"] == "bounded"]
